@@ -59,7 +59,8 @@ class DiagnosticCollector:
         t : float
             The current time
         """
-        ti = t//self.dt
+        # t is accumulated from steps of dt : take the nearest step, t//dt is one short when t/dt is rounded down
+        ti = int(t/self.dt + 0.5)
         idx = int(ti % self.saveStep)
 
         self.diagnostics[0, idx] = t
